@@ -305,7 +305,8 @@ def r4b_val_to_tensor(ctx):
             seen += 1
             from ..astq import Canon
             cn = Canon(node)
-            ALLOWED = {"torch.tensor($0)", "$0.view($1)", "$0.reshape($1)", "torch.as_tensor($0)", "torch.tensor($0).view($1)", "torch.tensor($0).reshape($1)"}
+            ALLOWED = {"torch.tensor($0)", "$0.view($1)", "$0.reshape($1)", "torch.tensor($0).view($1)", "torch.tensor($0).reshape($1)"}
+            NOCOPY = ("torch.as_tensor(", "torch.from_numpy(", "torch.asarray(")
             REARR = (".t()", ".T", "transpose", "permute", "flip", "sort", "roll", "[::-1]", "swapaxes", "movedim")
             for st in statements(node):
                 if isinstance(st, (ast.Assign, ast.AugAssign)):
@@ -313,6 +314,9 @@ def r4b_val_to_tensor(ctx):
                     where = (modname, "val_to_tensor")
                     if txt in ALLOWED:
                         ctx.ok("C12.R4b", where, st, f"`{txt}`: tensorise / declared shape")
+                    elif any(txt.startswith(nc) for nc in NOCOPY):
+                        ctx.violation("C12.R4b", where, st, f"`{U(st)[:70]}` does not copy: a parameter loaded from a numpy array shares its memory with the caller's array, so editing that array "
+                                      "afterwards changes the model's parameter behind its cached derived values (the saved file no longer matches the model)")
                     elif any(r in txt for r in REARR):
                         ctx.violation("C12.R4b", where, st, f"`{U(st)[:70]}` re-arranges the entries of a loaded value: a parameter whose stored shape matches (e.g. a square matrix) comes back different from "
                                       "what was saved")
